@@ -245,7 +245,7 @@ struct C14T : Property
 			ctx.fail(std::string("C14:data-race@") + (f2 ? f2 : "?"), "threads working on their own documents conflict on json-c memory in %s / %s", f2 ? f2 : "?", f1 ? f1 : "?");
 		}
 		if (!g_alloc.live.empty())
-			ctx.fail("C14:leak@" + g_alloc.site_of(g_alloc.live.begin()->second), "%zu allocation(s) remain:%s", g_alloc.live.size(), g_alloc.describe_live().c_str());
+			ctx.fail("C14:leak@" + g_alloc.first_live_site(), "%zu allocation(s) remain:%s", g_alloc.live.size(), g_alloc.describe_live().c_str());
 	}
 };
 std::vector<C14T::TState> *C14T::g_ts = nullptr;
